@@ -427,28 +427,33 @@ func (r *runner) onCompletion(w int, got *PM) {
 	r.checkStores(fmt.Sprintf("after completion %d of controller %d", r.done[w]-1, w))
 }
 
-// checkStores: every byte equals the sequential copies of the completed
-// requests, except inside the destination of the one request that may be in
-// progress, where each byte is the old or the new value.
+// checkStores: every byte equals the sequential copies of the requests whose
+// completion was TAKEN, except inside the destination of a request that was
+// accepted and whose completion has not been taken yet (it may be waiting,
+// in progress or finished with the response still in the control port):
+// there a byte may also be that request's source byte.
 func (r *runner) checkStores(when string) {
 	if !r.monitored() {
 		return
 	}
 	for w := 0; w < 2; w++ {
-		var ip *PM
-		if r.done[w] < len(r.accepted[w]) {
-			ip = &r.accepted[w][r.done[w]]
-		}
+		open := r.accepted[w][r.done[w]:]
 		for a := range r.store[w] {
 			got, want := r.store[w][a], r.exp[w][a]
 			if got == want {
 				continue
 			}
-			if ip != nil && uint64(a) >= ip.Wr && uint64(a) < ip.Wr+ip.Size &&
-				got == r.initial[1-w][ip.Rd+uint64(a)-ip.Wr] {
+			ok := false
+			for i := range open {
+				q := &open[i]
+				if uint64(a) >= q.Wr && uint64(a) < q.Wr+q.Size && got == r.initial[1-w][q.Rd+uint64(a)-q.Wr] {
+					ok = true
+				}
+			}
+			if ok {
 				continue
 			}
-			r.flag(fmt.Sprintf("%s: byte %d of memory %d is %d, expected %d (requests completed: %d of %d)",
+			r.flag(fmt.Sprintf("%s: byte %d of memory %d is %d, expected %d (completions taken: %d of %d requests)",
 				when, a, w, got, want, r.done[w], len(r.accepted[w])))
 			return
 		}
